@@ -25,6 +25,7 @@ Set Printing Width 1000000.
 # functions; what they add is the iteration the OCaml glue does in ocaml/fam_parse.ml (lookups),
 # ocaml/fam_nav.ml (walk) and ocaml/fam_object.ml (apply / fold) - written a second time, in Gallina.
 PRE_OBJ = """From JsonSyntax Require Import Model.Object Spec.Multimap.
+From JsonSyntax Require Model.Canon.
 (* the distinct keys in order of first occurrence, then one key that does not occur *)
 Definition xc_keys (es : list entry) : list key :=
   fold_left (fun acc e => if existsb (str_eqb (fst e)) acc then acc else acc ++ [fst e]) es []
@@ -318,7 +319,16 @@ def _ascii_cps(text):
     return "[" + "; ".join(str(ord(c)) for c in text) + "]"
 
 
+# the second key universe of the object histories (a case line whose key count is 11):
+# harness/src/object.rs EXOTIC, ocaml/fam_object.ml exotic
+_EXOTIC = ["\uffff", "\U00010000", "\ue000a", "\U0010ffff", "", "\xe9", "k", "k0", "\ud7ff\U00010000", "\ud7ff\ue000",
+           "\U00010000\ue000"]
+_EXOTIC_ON = [False]
+
+
 def _hkey(i):
+    if _EXOTIC_ON[0] and int(i) < len(_EXOTIC):
+        return _ascii_cps(_EXOTIC[int(i)])
     return _ascii_cps("k%02d" % int(i))
 
 
@@ -378,6 +388,11 @@ def _hist_step(op):
                 f"(fun es => xc_pure RMUniq (m_remove_unique es {_hkey(p[1])}))")
     if h == "sort":
         return ("(fun o => xc_ok (Object.sort o))", "(fun es => Some (Object.stable_sort entry_cmp es, ROk))")
+    if h == "canon":
+        return ("(fun o => xc_ok (Object.sort_with Canon.canon_entry_cmp o))",
+                "(fun es => Some (Object.stable_sort Canon.canon_entry_cmp es, ROk))")
+    if h == "extpanic":
+        return "(fun o => Some (o, ROk))", "(fun es => Some (es, ROk))"
     if h in ("goi", "gmoi"):
         k, v = _hkey(p[1]), _hval(p[2])
         return (f"(fun o => xc_lift RVal (Object.get_or_insert_with o {k} {v}))",
@@ -417,6 +432,7 @@ def _steps(ops, which):
 
 def _c06_case_term(t):
     nkeys = int(t[1])
+    _EXOTIC_ON[0] = nkeys == 11
     keys = "[" + "; ".join([_hkey(i) for i in range(nkeys)] + [_ascii_cps("absent")]) + "]"
     return f"xc_c06 {_steps(t[2:], 0)} {_steps(t[2:], 1)} {keys}"
 
@@ -746,6 +762,8 @@ def _h_vstr(v):
 
 def _h_kidx(k):
     s = _ascii(k)
+    if _EXOTIC_ON[0] and s in _EXOTIC:
+        return str(_EXOTIC.index(s))
     if s[:1] == "k" and re.fullmatch(r"[0-9]+", s[1:]):
         return str(int(s[1:]))
     return "?" + s
